@@ -9,6 +9,7 @@
 // modes (tree):  shapes    all rooted shapes with 1..maxn nodes x every new root x all pairs / subsets
 //                rtrees    random trees with lo..hi nodes, random re-rootings, sampled pairs / subsets
 //                hist      random histories mixing edits and queries (invalid graphs arise)
+//                cachewalk query / one edit of every kind (incl. refusals) / query, from random valid trees
 //                probe     one scenario per known finding
 // modes (dag):   digraphs  all digraphs on 1..maxn labelled nodes
 //                dhist     random digraphs / histories
@@ -767,7 +768,7 @@ static void modeHist(size_t count, size_t len, size_t maxNodes, vt::Rng& rng)
     // start from a small random tree half of the time
     if (rng.coin())
     {
-      size_t n = 1 + rng.below(4);
+      size_t n = 1 + rng.below(std::min<size_t>(4, maxNodes));
       h.build(randomParents(n, rng), randomLabels(n, rng), rng, true, unrooted);
       created = n;
     }
@@ -783,6 +784,20 @@ static void modeHist(size_t count, size_t len, size_t maxNodes, vt::Rng& rng)
       long o = rng.chance(1, 3) ? (rng.chance(3, 4) ? h.freeObj() : static_cast<long>(1 + rng.below(4))) : 0;
       bool undirected = !h.d;
       bool absent = !h.hasNode(a) || !h.hasNode(b);
+      // drift towards valid trees now and then (a stale cache can only show when the answer was "valid"):
+      // hang a node the root does not reach below one it reaches
+      if (!undirected && h.hasNode(h.root) && !h.looksTree() && rng.chance(1, 4))
+      {
+        std::set<unsigned> rs = h.reach(h.root, true);
+        std::vector<unsigned> in(rs.begin(), rs.end()), outside;
+        for (auto n : h.nodes)
+          if (!rs.count(n)) outside.push_back(n);
+        if (!outside.empty())
+        {
+          h.setFather(outside[rng.below(outside.size())], in[rng.below(in.size())], 0);
+          continue;
+        }
+      }
       switch (rng.below(16))
       {
       case 0:
@@ -861,6 +876,96 @@ static void modeHist(size_t count, size_t len, size_t maxNodes, vt::Rng& rng)
       }
     }
     h.qValid();
+  }
+}
+
+// query (fills the cache with "valid") / ONE edit of every kind / query again - from random valid trees.
+// Each edit kind is tried with the cache filled by isValid(), by getSubtreeNodes(), or left empty.
+static void modeCacheWalk(size_t count, vt::Rng& rng)
+{
+  const int KINDS = 22;
+  for (size_t k = 0; k < count; ++k)
+  {
+    size_t n = 2 + rng.below(5);
+    std::vector<int> par = randomParents(n, rng);
+    std::vector<unsigned> lab = randomLabels(n, rng);
+    for (int kind = 0; kind < KINDS; ++kind)
+    {
+      TreeH h;
+      bool unrooted = F.unroot && rng.chance(1, 5);
+      h.reset(!unrooted);
+      h.build(par, lab, rng, true, unrooted);
+      for (int round = 0; round < 2; ++round)
+      {
+        if (h.nodes.empty()) break;
+        switch (rng.below(3)) // how the cache gets filled
+        {
+        case 0:
+          h.qValid();
+          break;
+        case 1:
+          if (h.d || !h.looksTree()) h.qSub(h.nodes[rng.below(h.nodes.size())]);
+          else h.qValid();
+          break;
+        default:
+          break;
+        }
+        unsigned a = h.nodes[rng.below(h.nodes.size())], b = h.nodes[rng.below(h.nodes.size())];
+        long absent = static_cast<long>(h.N.size()) + 1;
+        long usedObj = 0, freeO = h.freeObj();
+        for (int o = 1; o <= NPOOL; ++o)
+          if (const_cast<const TreeObs&>(*h.obs).hasEdge(h.E[o])) usedObj = o;
+        bool und = !h.d;
+        int kd = (kind + round * 7) % KINDS;
+        switch (kd)
+        {
+        case 0: h.createNode(); break;
+        case 1: if (F.dups || !h.related(a, b, h.d)) h.addSon(a, b, 0); break;
+        case 2: if (F.dups || !h.related(a, b, h.d)) h.addSon(a, b, F.eobj ? freeO : 0); break;
+        case 3: if (F.dups || !h.related(a, b, h.d)) h.link(a, b, freeO); break;
+        case 4: if (!und) h.setFather(a, b, 0); break;
+        case 5: if (!und && F.eobj) h.setFather(a, b, freeO); break;
+        case 6: if (!und && F.eobj) h.setFather(a, b, usedObj); break; // object of some link: refused unless it is a's father link
+        case 7: if (!und || F.uedit) h.removeSon(a, b); break;
+        case 8:
+          if (und && !F.uedit) break;
+          { // a real relation
+            if (h.edges.empty()) break;
+            auto it = h.edges.begin();
+            std::advance(it, static_cast<long>(rng.below(h.edges.size())));
+            if (rng.coin()) h.removeSon(it->second.first, it->second.second);
+            else h.unlink(it->second.first, it->second.second);
+          }
+          break;
+        case 9: if (!und || F.uedit) h.deleteNode(a); break;
+        case 10: if (!und || F.uedit) h.deleteNode(h.root); break;
+        case 11: h.setRoot(a); break;
+        case 12: if (!und || F.unroot) h.rootAt(a); break;
+        case 13: if (F.unroot) h.unRoot(false); break;
+        case 14:
+          if (!F.unroot || !h.hasNode(h.root)) break;
+          {
+            std::vector<unsigned> sn = h.outOf(h.root, h.d);
+            if (sn.size() == 2 && (sn[0] == sn[1] || sn[0] == (unsigned)h.root || sn[1] == (unsigned)h.root || h.related(sn[0], sn[1], false))) break;
+            if (h.d && h.reciprocal()) break;
+            h.unRoot(true);
+          }
+          break;
+        // refusals: nothing may change, the cached answer stays right
+        case 15: h.addSon(a, absent, 0); break;
+        case 16: h.link(absent, a, 0); break;
+        case 17: if (!und) h.setFather(absent, a, 0); break;
+        case 18: h.deleteNode(absent); break;
+        case 19: h.rootAt(absent); break;
+        case 20: h.setRoot(absent); break;
+        default: h.link(a, b, usedObj); break; // an object that is already attached (or none)
+        }
+        // first query after the edit: validity, or a guarded structural query
+        if (rng.chance(1, 3) && !h.nodes.empty() && (h.d || !h.looksTree())) h.qSub(h.nodes[rng.below(h.nodes.size())]);
+        h.qValid();
+        if (h.d && h.looksTree() && rng.chance(1, 3)) h.battery(rng, false, 6);
+      }
+    }
   }
 }
 
@@ -1165,6 +1270,7 @@ int main(int argc, char** argv)
   if (mode == "shapes") modeShapes(maxn, rng);
   else if (mode == "rtrees") modeRTrees(n, static_cast<size_t>(vt::argInt(argc, argv, "--lo", 8)), static_cast<size_t>(vt::argInt(argc, argv, "--hi", 12)), rng);
   else if (mode == "hist") modeHist(n, static_cast<size_t>(vt::argInt(argc, argv, "--len", 40)), maxn, rng);
+  else if (mode == "cachewalk") modeCacheWalk(n, rng);
   else if (mode == "digraphs") modeDigraphs(maxn, static_cast<size_t>(vt::argInt(argc, argv, "--loops", 3)), rng);
   else if (mode == "dhist") modeDHist(n, static_cast<size_t>(vt::argInt(argc, argv, "--len", 40)), maxn, rng);
   else if (mode == "probe") modeProbe(vt::argStr(argc, argv, "--which", ""), rng);
